@@ -30,7 +30,7 @@ func runC10(r *core.Run, tier string) {
 		r.Inconclusive("materialize: " + err.Error())
 		return
 	}
-	r.Rule("a case is one ordered pair (a, b) of values of one Folang type: int, string, bool, slices, slices of slices, records with upper-case / lower-case / mixed field names, nested records, 2- and 3-tuples, unions with and without payload, slices of unions, generic record and union instances; the Go types are the ones the rebuilt fc emits for a Folang declaration file, each value is materialised along several library paths (literal, slice.New+PushLast, Filter / Take / Skip / Tail / PopLast / Map / Append results, nil vs empty, constructor function vs struct literal) and carries a canonical form; frt.OpEqual / OpNotEqual and the emitted Folang functions using = / <> are called under recover; checked: no panic, result == canonical-form equality, reflexive, symmetric, transitive (all or a strided sample of triples), <> is the negation; non-trivial = the two operands were built along different paths (or a reflexive pair); distinct by construction (each ordered pair visited once)")
+	r.Rule("a case is one ordered pair (a, b) of values of one Folang type: int, string, bool, slices, slices of slices, records with upper-case / lower-case / mixed field names, nested records, 2- and 3-tuples, unions with and without payload, slices of unions, generic record and union instances; the Go types are the ones the rebuilt fc emits for a Folang declaration file, each value is materialised along several library paths (literal, slice.New+PushLast, Filter / Take / Skip / Tail / PopLast / Map / Append results, nil vs empty, constructor function vs struct literal) and carries a canonical form; frt.OpEqual / OpNotEqual and the emitted Folang functions using = / <> are called under recover, in one process for all families and once more per family in a fresh process (first comparison of that process); checked: no panic, result == canonical-form equality, reflexive, symmetric, transitive (all or a strided sample of triples), <> is the negation; non-trivial = the two operands were built along different paths (or a reflexive pair); distinct by construction (each ordered pair visited once)")
 	r.Assume("canonical forms are the reference structural equality", "function values and floats are outside the statement")
 	// the types are emitted by the compiler under test
 	src, _ := os.ReadFile(filepath.Join(ws, "eq_types.fo"))
@@ -54,6 +54,30 @@ func runC10(r *core.Run, tier string) {
 	if rep.Done {
 		if v, _ := rep.Stats["types"].(float64); v < 20 {
 			r.Inconclusive("fewer than 20 type families compared")
+		}
+		// every family once more in a process of its own, as the first comparison that process
+		// makes (equality must not depend on what was compared before)
+		nFam := 0
+		if v, ok := rep.Stats["families"].(float64); ok {
+			nFam = int(v)
+		}
+		reps := make([]*harness.Report, nFam)
+		scratch.Parallel(nFam, 8, func(i int) {
+			reps[i], _ = harness.Run(r, bin, []string{"-depth", "2", "-only", fmt.Sprint(i)}, 600, fmt.Sprintf("eqh -only %d", i))
+		})
+		isolated := 0
+		for _, ri := range reps {
+			if ri != nil && ri.Done {
+				isolated++
+				for k, v := range ri.Stats {
+					r.Set(k, v)
+				}
+				r.EvalN(ri.Evals, ri.Distinct, "case")
+			}
+		}
+		r.Set("families_compared_in_a_process_of_their_own", isolated)
+		if isolated < nFam {
+			r.Inconclusive("some isolated family run did not finish")
 		}
 	}
 }
